@@ -64,7 +64,7 @@ from zorg.domain.models import Page as _Page  # noqa: E402
 
 NPG = 2  # pages on disk and entries of the stored hash map: at most 2 each (names, contents, digests fully symbolic)
 RE_BOUNDED = (f"bounded-symbolic: at most {NPG} pages on disk and at most {NPG} entries in the stored hash map (page names, contents and digests "
-              "fully symbolic; plain reindex, empty error whitelist)")
+              "fully symbolic; plain reindex or one explicit page; empty error whitelist)")
 
 
 @_opaque("bool", always=True)
@@ -133,7 +133,12 @@ def _reindex_prelude(interp, loc):
     idx = sym.TMap(sym.TStr(), sym.TStr()).fresh(ctx, "idx")
     ctx.ghost["user"] = {"pages": pages, "idx": idx, "whitelist": wl, "zdir": zdir, "stored": old_map}
     repo = sym.Rec("SQLRepo", {}, cls=SQLRepo)
-    loc["cmd"] = sym.Rec("ReindexDBCommand", {"zettel_dir": zdir, "paths": [], "verbose": False}, cls=_commands.ReindexDBCommand)
+    # plain reindex, or `db reindex PAGE` for one of the pages on disk
+    paths = []
+    for p in pages:
+        if not paths and ctx.branch(ctx.fresh("explicit.path", z3.BoolSort()), "explicit path: this page"):
+            paths = [p]
+    loc["cmd"] = sym.Rec("ReindexDBCommand", {"zettel_dir": zdir, "paths": paths, "verbose": False}, cls=_commands.ReindexDBCommand)
     loc["session"] = sym.Rec("SQLSession", {"repo": repo, "zdir": zdir}, cls=SQLSession)
     loc["_ghost_zdir"] = zdir
 
@@ -210,6 +215,15 @@ def changed(zdir, p):
     return relative(zdir, p) not in m or m[relative(zdir, p)] != sha256_of(fs_read(p))
 
 
+def considered(cmd, p):
+    """plain reindex: every page on disk; `db reindex PATHS`: the given pages"""
+    return len(cmd.paths) == 0 or any(q == p for q in cmd.paths)
+
+
+def considered_name(cmd, zdir, k):
+    return any(considered(cmd, p) and relative(zdir, p) == k for p in ghost("pages"))
+
+
 contract(
     H + "reindex_database", props=["C06"], args={}, prelude=_reindex_prelude, list_bound=NPG, bounded_note=RE_BOUNDED,
     inline=[H + "_get_file_hash_map"],
@@ -222,12 +236,19 @@ contract(
         "hash-map-describes-the-index (digests)": "all(sha256_of(ghost('idx')[k]) == ghost('stored')[k] for k in ghost('stored').keys())",
         "A-SHA: no collision between a page on disk and an indexed content": "all(implies(sha256_of(fs_read(p)) == sha256_of(ghost('idx')[k]), fs_read(p) == ghost('idx')[k]) for p in ghost('pages') for k in ghost('stored').keys())",
     },
-    raises={"RuntimeError": "any(changed(_ghost_zdir, p) and has_syntax_errors(fs_read(p)) for p in ghost('pages'))"},
+    raises={"RuntimeError": "any(considered(cmd, p) and changed(_ghost_zdir, p) and has_syntax_errors(fs_read(p)) for p in ghost('pages'))"},
     ensures={
-        "the-index-holds-exactly-the-pages-on-disk": "forall_str(lambda k: (k in ghost('idx')) == on_disk(_ghost_zdir, k))",
-        "every-page-is-indexed-with-its-current-content": "all(ghost('idx')[relative(_ghost_zdir, p)] == fs_read(p) for p in ghost('pages'))",
-        "the-stored-hash-map-describes-the-new-index": "forall_str(lambda k: (k in json_map(fs_read(hash_file_of(_ghost_zdir)))) == on_disk(_ghost_zdir, k)) and "
-                                                       "all(json_map(fs_read(hash_file_of(_ghost_zdir)))[relative(_ghost_zdir, p)] == sha256_of(fs_read(p)) for p in ghost('pages'))",
+        # plain reindex: exactly what a rebuild yields in the abstract view
+        "plain: the-index-holds-exactly-the-pages-on-disk": "implies(len(cmd.paths) == 0, forall_str(lambda k: (k in ghost('idx')) == on_disk(_ghost_zdir, k)))",
+        "every-page-considered-is-indexed-with-its-current-content": "all(implies(considered(cmd, p), ghost('idx')[relative(_ghost_zdir, p)] == fs_read(p)) for p in ghost('pages'))",
+        "plain: the-stored-hash-map-describes-the-new-index": "implies(len(cmd.paths) == 0, forall_str(lambda k: (k in json_map(fs_read(hash_file_of(_ghost_zdir)))) == on_disk(_ghost_zdir, k)))",
+        "digests-of-the-pages-considered-are-stored": "all(implies(considered(cmd, p), json_map(fs_read(hash_file_of(_ghost_zdir)))[relative(_ghost_zdir, p)] == sha256_of(fs_read(p))) for p in ghost('pages'))",
+        # explicit paths: everything else stays as it was, in the index and in the stored map
+        "explicit paths: other-pages-keep-their-index-entry": "implies(len(cmd.paths) > 0, forall_str(lambda k: considered_name(cmd, _ghost_zdir, k) or "
+                                                              "((k in ghost('idx')) == (k in old(ghost('idx'))) and implies(k in ghost('idx'), ghost('idx')[k] == old(ghost('idx'))[k]))))",
+        "explicit paths: other-pages-keep-their-stored-digest": "implies(len(cmd.paths) > 0, "
+                                                                "forall_str(lambda k: (k in json_map(fs_read(hash_file_of(_ghost_zdir)))) == (k in ghost('stored') or considered_name(cmd, _ghost_zdir, k))) and "
+                                                                "all(considered_name(cmd, _ghost_zdir, k) or json_map(fs_read(hash_file_of(_ghost_zdir)))[k] == ghost('stored')[k] for k in ghost('stored').keys()))",
         "no-page-is-written": "fs_only_changed(hash_file_of(_ghost_zdir), ghost('whitelist'))",
     },
 )
